@@ -338,7 +338,26 @@ type c07Run struct {
 	n      int
 }
 
-func newC07Run(c *Case, forks bool) *c07Run {
+// applyRootForm configures the file root the way an operator may write it: clean, with a trailing slash, or as a
+// per-account root with a `.` component / doubled separator.  The tree on disk is the same; only the STRING differs.
+func applyRootForm(ts *TS, cc *hotline.ClientConn, form int) string {
+	switch form % 4 {
+	case 1:
+		ts.Srv.Config.FileRoot = ts.Root + "/"
+		return "config root with trailing slash"
+	case 2:
+		cc.Account.FileRoot = filepath.Dir(ts.Root) + "/./" + filepath.Base(ts.Root)
+		return "account root with /./"
+	case 3:
+		cc.Account.FileRoot = filepath.Dir(ts.Root) + "//" + filepath.Base(ts.Root) + "/"
+		return "account root with // and trailing slash"
+	}
+	return "clean config root"
+}
+
+func newC07Run(c *Case, forks bool) *c07Run { return newC07RunForm(c, forks, c.R.Intn(4)) }
+
+func newC07RunForm(c *Case, forks bool, form int) *c07Run {
 	ts, err := newTS(TSOpt{Direct: true, PreserveForks: forks,
 		Accounts: []AcctSpec{{Login: "admin", Name: "admin", Password: "", Access: allAccess()}}})
 	if err != nil {
@@ -348,6 +367,9 @@ func newC07Run(c *Case, forks bool) *c07Run {
 	h := &c07Run{c: c, ts: ts}
 	h.box = c07Sandbox(c.R, ts)
 	h.cc, _ = ts.DirectClient("admin", []byte("admin"), "127.0.0.1:1")
+	rf := applyRootForm(ts, h.cc, form)
+	c.Note("root_form", rf)
+	c.Dist("root-form/" + rf)
 	h.before = h.box.outside(ts.Root)
 	return h
 }
@@ -435,9 +457,18 @@ func c07Canary(c *Case) {
 
 // c07Regressions replays the inputs on which the code failed before the fix: commits (kept as a fixed corpus).
 func c07Regressions(c *Case) {
-	h := newC07Run(c, true)
+	for form := 0; form < 4; form++ {
+		if !c07RegressionsForm(c, form) {
+			return
+		}
+	}
+	c07RegressionsRest(c)
+}
+
+func c07RegressionsForm(c *Case, form int) bool {
+	h := newC07RunForm(c, true, form)
 	if h == nil {
-		return
+		return false
 	}
 	defer h.ts.Close()
 	sub := encItems([][]byte{[]byte("sub")})
@@ -465,11 +496,20 @@ func c07Regressions(c *Case) {
 		{Kind: "list", PF: encItems([][]byte{[]byte("..")}), HasPF: true},
 		{Kind: "dlfolder", Name: []byte("..")},
 	}
+	// names and paths that clean to nothing address the root as well
+	for _, nm := range []string{".", "..", "/", "./.", "../.."} {
+		reqs = append(reqs, fileReq{Kind: "delete", Name: []byte(nm)}, fileReq{Kind: "setinfo", Name: []byte(nm), Comment: []byte("c"), HasComment: true},
+			fileReq{Kind: "info", Name: []byte(nm)}, fileReq{Kind: "move", Name: []byte(nm), NewPF: sub, HasNewPF: true})
+	}
 	for _, q := range reqs {
 		if !h.Do(q) {
-			return
+			return false
 		}
 	}
+	return true
+}
+
+func c07RegressionsRest(c *Case) {
 	// cab4779 (and its siblings): account rename / create / delete with a path as the login
 	func() {
 		ts, err := newTS(TSOpt{Direct: true, Accounts: []AcctSpec{{Login: "admin", Name: "admin", Password: "", Access: allAccess()},
@@ -830,6 +870,7 @@ func c07Transfers(c *Case) {
 	defer ts.Close()
 	box := c07Sandbox(r, ts)
 	cc, _ := ts.DirectClient("admin", []byte("admin"), "127.0.0.1:1")
+	c.Note("root_form", applyRootForm(ts, cc, r.Intn(4)))
 	before := box.outside(ts.Root)
 	var wg sync.WaitGroup
 	const K = 8
@@ -1081,6 +1122,7 @@ func c07Child(seedStr string) {
 	}
 	box := c07Sandbox(r, ts)
 	cc, _ := ts.DirectClient("admin", []byte("admin"), "127.0.0.1:1")
+	applyRootForm(ts, cc, r.Intn(4))
 	fmt.Println("SANDBOX", ts.Dir)
 	os.Stat("/VERIF-MARK-BEGIN")
 	for i := 0; i < 150; i++ {
